@@ -256,7 +256,7 @@ Fixpoint check_items (i : nat) (l : list (plan * list row)) : list nat :=
     | None => [9; i]
     | Some q =>
       match CosmosModel.planToItems enc_req0 enc_att0 q with
-      | None => [42; i]
+      | None => match items with [] => check_items (S i) r | _ => [42; i] end   (* [] = the implementation refused too *)
       | Some m => match first_row_diff 0 m items with
                   | None => check_items (S i) r
                   | Some j => [41; i; j]
